@@ -158,7 +158,12 @@ class BloomDriver:
                     self.growths += 1
                     self.events.add("growth")
             elif alt:
-                ctx.call(anyo, o.add_alt, ctx.call(anyo, o.hashes, k))
+                hs = ctx.call(anyo, o.hashes, k)
+                if self.nops % 2 == 0:
+                    longer = ctx.call(anyo, o.hashes, k, len(hs) + 2)
+                    if longer[: len(hs)] == hs:  # a list computed for a larger depth: only the leading number_hashes entries may matter
+                        hs = longer
+                ctx.call(anyo, o.add_alt, hs)
             else:
                 ctx.call(anyo, o.add, k)
             if alt:
